@@ -944,11 +944,17 @@ pub fn run(ctx: &Ctx, replay: Option<&Value>) -> i32 {
     let unexpected: Vec<u8> = seen.difference(&accepted).copied().collect();
     let arms = st.arms.lock().unwrap().clone();
     let arms_missing: Vec<&str> = PARSER_ARMS.iter().filter(|a| !arms.contains(**a)).copied().collect();
-    assert!(
-        missing.is_empty() && unexpected.is_empty(),
-        "C10 instruction coverage is incomplete: opcode bytes accepted by the decoder but never produced: {missing:?}; produced but not accepted: {unexpected:?}"
-    );
-    assert!(arms_missing.is_empty(), "C10: parser arms never exercised by a parsable spelling: {arms_missing:?}");
+    // a coverage hole with no violation means the corpus is stale (machinery failure); with
+    // violations recorded it is their consequence (an instruction serialised under a wrong opcode)
+    if ctx.num_failures() == 0 {
+        assert!(
+            missing.is_empty() && unexpected.is_empty(),
+            "C10 instruction coverage is incomplete: opcode bytes accepted by the decoder but never produced: {missing:?}; produced but not accepted: {unexpected:?}"
+        );
+        assert!(arms_missing.is_empty(), "C10: parser arms never exercised by a parsable spelling: {arms_missing:?}");
+    } else if !(missing.is_empty() && unexpected.is_empty()) {
+        ctx.note(format!("opcode bytes accepted by the decoder but never produced: {missing:?}; produced but not accepted: {unexpected:?}"));
+    }
 
     for c in cases.iter().step_by(cases.len() / 7 + 1) {
         match c {
